@@ -629,11 +629,11 @@ def check_documents(chk, td, docs, mechanism, seq_budget, variants, small=False,
                     chk.feature(f"{mechanism}:result={'op' if 'op' in r else 'err:' + r['err'] if 'err' in r else 'iter'}")
             if impl_res != model_res:
                 k = next(i for i, (x, y) in enumerate(zip(impl_res, model_res)) if x != y)
-                chk.disagreement(f"{mechanism}:results", {"doc": G.wire(w.doc), "layout": w.doc["layout"], "accesses": accesses,
-                                                          "at": k}, model_res[k], impl_res[k])
+                chk.disagreement(mechanism, {"aspect": "results", "doc": G.wire(w.doc), "layout": w.doc["layout"],
+                                             "accesses": accesses, "at": k}, model_res[k], impl_res[k])
             elif impl_stacks != model_stacks:
-                chk.disagreement(f"{mechanism}:scope-stack", {"doc": G.wire(w.doc), "layout": w.doc["layout"],
-                                                              "accesses": accesses}, model_stacks, impl_stacks)
+                chk.disagreement(mechanism, {"aspect": "scope-stack", "doc": G.wire(w.doc), "layout": w.doc["layout"],
+                                             "accesses": accesses}, model_stacks, impl_stacks)
             # ---- replay: judge what the implementation did
             for a, (res, _, extras) in zip(accesses, impl):
                 if a[0] == "iterate":
@@ -658,7 +658,14 @@ def yaml_json(chk, td, n):
     """JSON-vs-YAML clause (differential, sampled only): tricky keys unquoted, date-like scalars unquoted"""
     rng = chk.rng
     import re
+
+    from schemathesis.core.deserialization import get_yaml_loader
     ts = re.compile(r"^\d{4}-\d\d?-\d\d?")
+    left = sorted({tag for rs in get_yaml_loader().yaml_implicit_resolvers.values() for tag, _ in rs if "timestamp" in tag})
+    chk.case("yaml-vs-json", key="implicit-resolvers", nontrivial=True)
+    if left:
+        chk.violation("C08:get_yaml_loader:timestamp-resolver-present", "the YAML loader still resolves timestamps",
+                      {"resolvers": left})
     for i in range(n):
         props = {k: {"type": "string"} for k in rng.sample(TRICKY_KEYS, rng.randrange(1, 6))}
         responses = {k: {"description": "r"} for k in rng.sample(["200", "404", "default", "2XX", "500"], rng.randrange(1, 4))}
@@ -704,7 +711,7 @@ def check_tables(chk):
     impl_methods = sorted(schemas.HTTP_METHODS)
     chk.case("tables", key="HTTP_METHODS", nontrivial=True, sample={"HTTP_METHODS": impl_methods})
     if sorted(t["httpMethods"]) != impl_methods:
-        chk.disagreement("tables:HTTP_METHODS", "HTTP_METHODS", sorted(t["httpMethods"]), impl_methods)
+        chk.disagreement("tables", "HTTP_METHODS", sorted(t["httpMethods"]), impl_methods)
     src = ast.parse(open(schemas.__file__, encoding="utf-8").read())
     levels = {}
     for node in ast.walk(src):
@@ -716,7 +723,47 @@ def check_tables(chk):
     hops = {k: references.RECURSION_DEPTH_LIMIT - v for k, v in levels.items()}
     chk.case("tables", key="hops", nontrivial=True, sample={"hops": hops})
     if set(hops.values()) != {t["hops"]} or len(hops) != 2:
-        chk.disagreement("tables:reference-hops", "RECURSION_DEPTH_LIMIT - start level", t["hops"], hops)
+        chk.disagreement("tables", "reference hops followed = RECURSION_DEPTH_LIMIT - start level", t["hops"], hops)
+
+
+def swagger2_replay(chk, n):
+    """Swagger 2.0 documents share `_collect_operation_parameters` / `get_all_operations`; their collect_parameters is
+    not modelled, so this is implementation-level replay only: the Lean specification judges the offered containers."""
+    rng = chk.rng
+    reqs, cases = [], []
+    for i in range(n):
+        tag = [0]
+
+        def par(name=None, loc=None):
+            tag[0] += 1
+            return {"name": name or rng.choice(G.NAMES[:5]), "in": loc or rng.choice(["query", "header", "path"]),
+                    "required": rng.random() < 0.5, "type": "string", "x-tag": tag[0]}
+        shared = [par() for _ in range(rng.randrange(0, 3))]
+        own = [par(*(rng.choice([(p["name"], p["in"]) for p in shared]) if shared and rng.random() < 0.6 else (None, None)))
+               for _ in range(rng.randrange(0, 3))]
+        raw = {"swagger": "2.0", "info": {"title": "t", "version": "1"},
+               "paths": {"/a": {"parameters": shared, "get": {"operationId": "a", "parameters": own,
+                                                              "responses": {"200": {"description": "OK"}}}}}}
+        schema = schemathesis.openapi.from_dict(raw)
+        results = [canon_item(r) for r in schema.get_all_operations()]
+        looked = canon_op(schema["/a"]["get"])
+        chk.case("swagger2:replay-only", key=raw, nontrivial=bool(shared and own), sample={"raw": raw["paths"], "impl": results})
+        if results != [{"ok": looked}]:
+            chk.violation("C08:swagger2:look-up-differs-from-iteration", "Swagger 2.0: schema[path][method] differs from "
+                          "what iteration offers", {"raw": raw, "iteration": results, "lookup": looked})
+        if len(results) == 1 and "ok" in results[0]:
+            op_c, sh_c = [G.canon_param_oracle(p) for p in own], [G.canon_param_oracle(p) for p in shared]
+            reqs.append(("judge", {"op": op_c, "shared": sh_c, "offered": results[0]["ok"]}))
+            cases.append((raw, op_c, sh_c, results[0]["ok"]))
+    for (raw, op_c, sh_c, o), ans in zip(cases, chk.driver().batch(reqs)):
+        if not ans["conforms"]:
+            overridden = [s for s in sh_c if any(x["name"] == s["name"] and x["in"] == s["in"] for x in op_c)]
+            chained = op_c + sh_c
+            as_found = all([p for p in o[name] if p["tag"] != 0] == [p for p in chained if p["in"] == loc]
+                           for loc, name in CONTAINERS)
+            chk.violation(KF_MERGE if overridden and as_found else "C08:swagger2:offered-parameters-differ-from-effective",
+                          "Swagger 2.0: GET /a is offered with parameters that are not its effective ones",
+                          {"raw": raw, "offered": o, "effective": ans["effective"]})
 
 
 def run(chk):
@@ -787,12 +834,18 @@ def run(chk):
         check_documents(chk, td, docs, "multi-file:random", chk.budget(10, 40), variants)
         # 5. JSON vs YAML
         yaml_json(chk, td, chk.budget(150, 1500))
+        # 6. Swagger 2.0 (replay only)
+        swagger2_replay(chk, chk.budget(150, 1500))
     chk.exhaustive = False
 
 
 def replay(chk, data):
     r = data["replay"]
     print(data.get("what"))
+    if "doc" not in r and isinstance(r.get("input"), dict) and "doc" in r["input"]:
+        print("recorded model:", json.dumps(r.get("model"))[:1500])
+        print("recorded impl: ", json.dumps(r.get("impl"))[:1500])
+        r = r["input"]
     if "doc" not in r:
         print(json.dumps(r, indent=1)[:4000])
         return 0
